@@ -1,5 +1,16 @@
 ''' Per-property registration data for gen_manifest.py. '''
 
-CLAIMED = {}
+_NOTE = ('Trusted base: the /verif shims for GLib (sim loop calibrated against GLib 2.74 traces), dbus-python '
+         '(marshalling model calibrated on 857 rows of the real library), crcmod/portion (self-tested), fake sockets '
+         'and TLS; the independent oracles under vf/oracles (known-answer self-tests in ./setup). Held means: held on '
+         'the executions listed in the evidence file, nothing more.')
+
+CLAIMED = {
+    'C07': dict(
+        technique='runtime monitor: recv_message recorder + receive-buffer probe on the real endpoint, judged by an independent RFC 9174 stream parser; codec differential both ways',
+        text='Exploration with exhaustive sub-spaces: every composition (2^13) of 14-octet streams, every single cut of streams up to 300 octets, directed and random cuts of long streams, plus loop-driven runs; each feed step is checked for exactly-the-completed-messages and exact buffer occupancy. Codec half compares fields in both directions for directed boundary values and seeded random messages of all seven types and the contact header.',
+        note=_NOTE + ' Known findings (not masked for other inputs): MSG_REJECT field order; multi-item extension lists decode to a blob.',
+    ),
+}
 
 NOT_APPLICABLE = {}
